@@ -30,6 +30,7 @@ struct PoolOptions {
   double budget_s = 0;       // 0 = none; workers stop taking runs afterwards
   double run_limit_s = 120;  // harness protection only
   std::string log_dir;       // per-worker stderr files
+  bool hashlog = false;      // open runhash.<w>.bin for PoolLogRunHash
 };
 
 struct PoolCallbacks {
@@ -59,6 +60,16 @@ bool PoolShouldStop();
 
 // Inside a worker: records a phase tag reported in PoolDeath if it dies.
 void PoolSetTag(uint32_t tag);
+
+// Inside a worker: appends (idx, hash) to the worker's run-hash log (one
+// write per run, so that a dying worker loses nothing already logged).
+void PoolLogRunHash(uint64_t idx, uint64_t hash);
+
+// Classifies a dead worker from its stderr log (sanitizer report, assertion,
+// terminate, signal). Returns the class; |sig| gets the stable signature
+// (error class + top draco:: frame), |excerpt| the head of the log.
+std::string ClassifyDeath(const PoolDeath &d, std::string *sig,
+                          std::string *excerpt);
 
 double WallNow();
 
